@@ -533,9 +533,9 @@ func runC19(c *Ctx) {
 			return
 		}
 	}
-	n := c.Pick(2*len(c19Shapes), 2000)
+	n := c.Pick(2*len(c19Shapes), 8000)
 	c.Parallel(n, 8, func(i int) { c19RunName(c, i) })
-	c.Parallel(c.Pick(6, 60), 6, func(i int) { c19Expiry(c, i) })
+	c.Parallel(c.Pick(6, 300), 6, func(i int) { c19Expiry(c, i) })
 	c19DNSQueries.Lock()
 	r.Obs("dns_stub_queries", c19DNSQueries.n)
 	c19DNSQueries.Unlock()
